@@ -235,13 +235,19 @@ class WellTyped:
             out = []
             kt = self.m.resolve_alias(t["key"])
             intkey = kt["kind"] == "base" and kt["name"] == "integer"
+            enumkey = kt["kind"] == "reference" and kt["name"] in self.m.enums
             for kk, x in v.items():
+                jk = kk
                 if intkey:
                     if not isinstance(kk, int) or isinstance(kk, bool):
                         out.append(("ill-typed", locus, ctx, f"map key {short(kk)} of an integer-keyed map"))
+                    jk = str(kk)
+                elif enumkey:
+                    out.extend(self.check(kk, kt, _ABSENT, f"{locus}|key", ctx))
+                    jk = str(kk.value if isinstance(kk, enum.Enum) else kk)
                 elif not isinstance(kk, str):
                     out.append(("ill-typed", locus, ctx, f"map key {short(kk)}"))
-                js = j.get(str(kk) if intkey else kk, _ABSENT) if isinstance(j, dict) else _ABSENT
+                js = j.get(jk, _ABSENT) if isinstance(j, dict) else _ABSENT
                 out.extend(self.check(x, t["value"], js, f"{locus}|{{}}", ctx))
             return out
         if k == "tuple":
